@@ -2,6 +2,7 @@
 //! cases and prints one line per case: `op args… => observation` (consumed by `sjdriver`).
 mod common;
 mod c18;
+mod c08;
 
 fn main() {
     let args: Vec<String> = std::env::args().collect();
@@ -14,6 +15,7 @@ fn main() {
     let mut sink = common::Sink::new();
     match prop {
         "C18" => c18::run(&mut sink, thorough, seed),
+        "C08" => c08::run(&mut sink, thorough, seed),
         "replay" => { /* replay lines are `op args…` on stdin */
             let mut s = String::new();
             use std::io::Read;
@@ -34,6 +36,7 @@ fn main() {
 fn replay(sink: &mut common::Sink, toks: &[&str]) {
     match toks[0] {
         "ptr" | "ptrmut" | "pidx" => c18::replay(sink, toks),
+        "f64lit" | "f32lit" => c08::replay(sink, toks),
         _ => eprintln!("cannot replay op {}", toks[0]),
     }
 }
